@@ -83,6 +83,8 @@ def check_C05(report, tier, seed):
     engine_check("C05", report, tier, seed)
     import suites_client as SC
     SC.suite_client_inbound(report, tier, seed, "C05")
+    import suites_drivers as SD
+    SD.suite_real_inbound(report, tier, seed, "C05")
 def check_C06(report, tier, seed): engine_check("C06", report, tier, seed)
 def check_C07(report, tier, seed):
     import suites_engine as S
@@ -106,12 +108,13 @@ def check_C17(report, tier, seed):
     import suites_engine as E
     report.rule = ("resolver sessions: kind in {null, manual, lru(0..65535)}, 1-3 connections with server maxima 0..65535, up to 40 "
                    "resolutions over topic pools above and below the maximum; inbound sessions with alias 0/in range/above, empty topics; "
-                   "plus engine walks (alias replay on the decoded client stream); distinct by the whole session script")
+                   "plus engine walks (alias replay on the decoded client stream; a quarter with a server that re-uses alias numbers it bound on "
+                   "earlier connections of a resumed session); distinct by the whole session script")
     gv.theorem_obligations(report, "GV/Props/C17.lean", "GV.Props.C17", audit=True)
     S.suite_alias(report, tier, seed, "C17")
     # half of the walks run with publishes sized around the server's maximum packet size, so that last-chance validation
     # fails for packets whose alias resolution has already been made
-    walks = E.run_walks(seed, tier, "engine", 240, 6000, profile=lambda i: "mpstight" if i % 2 == 0 else "default")
+    walks = E.run_walks(seed, tier, "engine", 240, 6000, profile=lambda i: "mpstight" if i % 2 == 0 else ("inalias" if i % 4 == 1 else "default"))
     corr_ok = E.correspondence(report, walks, "C17")
     mon_ok = E.monitor(report, walks, "C17")
     if not corr_ok and mon_ok:
@@ -146,6 +149,8 @@ def check_C12(report, tier, seed):
                    "followed by a fairness phase with a reacting transport; distinct by script")
     gv.theorem_obligations(report, "GV/Props/C12.lean", "GV.Props.C12", audit=True)
     S.suite_lifecycle(report, tier, seed, "C12")
+    import suites_drivers as SD
+    SD.suite_real_lifecycle(report, tier, seed, "C12")
 
 
 def check_C20(report, tier, seed):
@@ -162,12 +167,13 @@ def check_C13(report, tier, seed):
     report.rule = ("(1) websocket sessions: 1-8 server frames (binary/text/ping/close; payloads 0..70000 bytes incl. 125/126/127, 4095/4096/4097, 65535/65536), read "
                    "buffers 1..4096 bytes, frames arriving byte-wise, split, several at once; (2) the real tokio and threaded clients over a scripted transport: "
                    "write accepts of 1..5000 bytes, stalls released while further operations are submitted, read fragments of 1..100 bytes with would-block, "
-                   "publish/subscribe/unsubscribe mixes before and after start; (3) stop/close races: submissions before, during and after close, from several threads; "
-                   "distinct by request line")
+                   "publish/subscribe/unsubscribe mixes before and after start; (2b) the same with a connection that ends while bytes are unsent (write error after partial acceptance, EOF, stop) "
+                   "followed by a reconnect; (3) stop/close races: submissions before, during and after close, from several threads; distinct by request line")
     report.assumptions.append("thread/task interleavings are sampled by running the real drivers, not enumerated; the model covers the write-loop accounting, the websocket read adapter and the result slot")
     gv.theorem_obligations(report, "GV/Props/C13.lean", "GV.Props.C13", audit=True)
     S.suite_ws(report, tier, seed, "C13")
     S.suite_fidelity(report, tier, seed, "C13")
+    S.suite_reconnect_fidelity(report, tier, seed, "C13")
     S.suite_results(report, tier, seed, "C13")
 
 
